@@ -129,9 +129,12 @@ func isPeerNodeIP(peer1, peer2 k8s.Peer) bool {
 // 	return false
 // }
 
+// isPodToItself: a pod added by the analysis (the ingress-controller pod, a representative pod) is never a pod of the
+// input, also when the input has a pod with its name in its namespace
 func isPodToItself(peer1, peer2 k8s.Peer) bool {
 	return peer1.PeerType() == k8s.PodType && peer2.PeerType() == k8s.PodType &&
-		peer1.GetPeerPod().Name == peer2.GetPeerPod().Name && peer1.GetPeerPod().Namespace == peer2.GetPeerPod().Namespace
+		peer1.GetPeerPod().Name == peer2.GetPeerPod().Name && peer1.GetPeerPod().Namespace == peer2.GetPeerPod().Namespace &&
+		peer1.GetPeerPod().FakePod == peer2.GetPeerPod().FakePod
 }
 
 func (pe *PolicyEngine) getPeer(p string) (k8s.Peer, error) {
